@@ -446,7 +446,8 @@ theorem initState_inv (h : Pko.Drv.HistCommon.HistScn) : Inv (Pko.Drv.HistCommon
     have : ((fun r : Rev => r.id) ∘ fun (x : Nat × Pko.Drv.HistCommon.JRev) =>
         ({ id := x.1, rev := x.2.rev, available := x.2.av, statusPaused := x.2.sp,
            lc := Pko.Drv.HistCommon.toLc x.2.lc, pbp := x.2.pbp, controllerOf := x.2.co,
-           objects := x.2.obj, hashMatch := x.2.hm, terminating := x.2.dt } : Rev)) = Prod.fst := by
+           objects := x.2.obj, hashMatch := x.2.hm, terminating := x.2.dt,
+           sliced := x.2.sl.getD [], sliceMissing := x.2.sm.getD false } : Rev)) = Prod.fst := by
       funext x; rfl
     rw [this, List.map_fst_zip]
     simp
